@@ -82,7 +82,7 @@ fn run_end_model(off: usize, len: usize) {
 }
 
 //@ tier: quick
-//@ timeout: 400
+//@ timeout: 1500
 //@ functions: arrow_data::ArrayData::{validate_values (RunEndEncoded arm), check_run_ends::<i16>, typed_buffer}, checked_len_plus_offset
 //@ bound: RunEndEncoded(Int16, Int32) ArrayData (struct literal) with THREE arbitrary i16 run ends and a logical (offset, len) of the PARENT array chosen per instance, len symbolic in 0..=40000: validate_values returns Ok exactly when the run ends are positive, strictly increasing and the last one is >= offset + len (Arrow format); unwind 6 [instances: offset 0; offset 2]
 //@ stub: alloc::fmt::format -> empty String; std::hash::RandomState::new -> fixed keys (Field metadata map, never used); <ArrayData as Clone>::clone -> field-for-field clone of the concrete Int16 leaf (avoids DataType::clone's recursion over all variants)
@@ -98,7 +98,7 @@ fn c09_run_end_data_accepts_iff_covering_offset0() {
 }
 
 //@ tier: quick
-//@ timeout: 400
+//@ timeout: 1500
 //@ functions: arrow_data::ArrayData::{validate_values (RunEndEncoded arm), check_run_ends::<i16>}
 //@ bound: as c09_run_end_data_accepts_iff_covering_offset0 with parent offset 2 (a sliced run array)
 //@ stub: alloc::fmt::format -> empty String; std::hash::RandomState::new -> fixed keys; <ArrayData as Clone>::clone -> field-for-field clone of the Int16 leaf
